@@ -30,14 +30,15 @@ from dataclasses import dataclass, field
 
 ROOT = os.path.dirname(os.path.dirname(os.path.abspath(__file__)))
 PY = os.path.join(ROOT, ".venv", "bin", "python")
+OUT = os.environ.get("VERIF_OUT") or ROOT  # scratch evaluations (tools/try_patch.sh SCRATCH=1) write evidence/replays elsewhere
 BUILD = os.path.join(ROOT, "build")
-REPLAYS = os.path.join(ROOT, "replays")
+REPLAYS = os.path.join(OUT, "replays")
 NCPU = int(os.environ.get("VERIF_JOBS", "16"))
 
 
 def env_for_child(extra=None):
     env = dict(os.environ)
-    env["PYTHONPATH"] = "/repo:" + ROOT
+    env["PYTHONPATH"] = os.environ.get("VERIF_REPO", "/repo") + ":" + ROOT
     env["PYTHONDONTWRITEBYTECODE"] = "1"
     env["PYTHONHASHSEED"] = "0"
     env.setdefault("UMR_LOPS_XARRAY_CEOS_ALOS2_VERIF", "1")
@@ -415,8 +416,8 @@ def run_property(prop_id, mod, tier, seed):
     }
     if pre_fail:
         evidence["coverage"]["explanation"] += " | RUN ABORTED: " + pre_fail
-    os.makedirs(os.path.join(ROOT, "evidence"), exist_ok=True)
-    json.dump(evidence, open(os.path.join(ROOT, "evidence", f"{prop_id}.json"), "w"), indent=1, default=repr)
+    os.makedirs(os.path.join(OUT, "evidence"), exist_ok=True)
+    json.dump(evidence, open(os.path.join(OUT, "evidence", f"{prop_id}.json"), "w"), indent=1, default=repr)
     for r in results:
         extra = ""
         if r["verdict"] == "inconclusive":
